@@ -925,6 +925,9 @@ func c07(c *core.Ctx) {
 		c.Check("Account.Save:clears-dirty-flag", "paired-effect", cleared, save.Pos(), "every successful Save of an account with the dirty flag set clears it")
 	})
 
+	c.Clause("C07.8", "the journal is used all-or-nothing: in each of the six EVM entry points every path on which the frame ends in an error — also the conditions that only become an error later, like an oversized created code — passes RevertToSnapshot with the frame's snapshot (clause C16.4, evaluated here as well)")
+	c.Run("evm-revert", func() { c16Revert(c) })
+
 	c.NotDecidedf("that undo restores the same VALUE (only that it writes the same locations from the recorded OldVal); deep-copy aliasing of OldVal; nesting/interleaving behaviour of snapshots as histories; equality of replayed and executed state")
 }
 
